@@ -189,3 +189,8 @@ pub fn hir_breakpoints(hs: &[Hir]) -> Vec<u32> {
     v.dedup();
     v
 }
+
+/// `regex_syntax::escape` (what `parse_literal` applies to a quoted terminal's text).
+pub fn regex_escape(s: &str) -> String {
+    regex_syntax::escape(s)
+}
